@@ -27,12 +27,12 @@ type vrSched struct {
 	Periods []vrPeriod `json:"periods"`
 }
 type vrInput struct {
-	Func  string  `json:"func"`
-	A     vrSched `json:"a"`
-	B     vrSched `json:"b"`
-	T     int64   `json:"t"`
-	DF    map[string]int64 `json:"delegated_free,omitempty"`
-	DV    map[string]int64 `json:"delegated_vesting,omitempty"`
+	Func string           `json:"func"`
+	A    vrSched          `json:"a"`
+	B    vrSched          `json:"b"`
+	T    int64            `json:"t"`
+	DF   map[string]int64 `json:"delegated_free,omitempty"`
+	DV   map[string]int64 `json:"delegated_vesting,omitempty"`
 }
 type vrReq struct {
 	Mode       string                     `json:"mode"`
@@ -333,9 +333,9 @@ func vrUn(ps sdkvesting.Periods) []vrPeriod {
 // ---- decoding of solver models (JSON produced by /verif/check)
 
 type vrVal struct {
-	Ctor    string            `json:"ctor"`
-	Args    []json.RawMessage `json:"args"`
-	Default json.RawMessage   `json:"default"`
+	Ctor    string              `json:"ctor"`
+	Args    []json.RawMessage   `json:"args"`
+	Default json.RawMessage     `json:"default"`
 	Entries [][]json.RawMessage `json:"entries"`
 }
 
